@@ -6,16 +6,22 @@
      e j s x k u   a session whose poll ends with nil (HTTP 500 / malformed body / empty status /
                    error status / match without offer / undecodable offer)
      n             one "no match" answer, then HTTP 500
+     w<r>/<r>/...  the SAME session polls again and again: one "no match" answer per round <r>, and
+                   after each of them the sessions named by the round ('.'-separated ids, "_" = none)
+                   end before the next poll (5 s later); the poll after the last round gets HTTP 500
      b r R         relay URL unparsable / host rejected / scheme rejected (non-TLS relay not allowed)
      p             peer connection cannot be made from the offer
      a g m         /answer fails (HTTP 500 / "client gone" / malformed) before the client connects
-     t             the client never opens the data channel (20 s timer)
+     t             the client never opens the data channel (20 s timer): it never gets the answer
+     T             the same with a client that CONNECTS (ICE/DTLS/SCTP up, pre-negotiated channel: no
+                   DATA_CHANNEL_OPEN is ever sent); the machine does not distinguish the two
      o             data channel opens, handler serves (stays open);  + the same without a poll
                    (driver shortcut: a bare tokens.get())
      q             data channel opens, relay unreachable: the handler ends at once
      A             /answer fails AFTER the client opened the data channel and the handler started
      c<i> d<i> -<i>  the handler of session i ends (client closes / relay closes / bare ret)
-   result: per op  c<count>h<len(ch)>p<Clients figures polled during the op, '.'-separated | ->  *)
+   result: per op  c<count>h<len(ch)>p<polls of the op, '.'-separated | ->, each poll being
+                   <Clients figure>@<slots in use when the figure was computed>  *)
 From Coq Require Import List NArith ZArith Bool Arith String.
 From Snow Require Import Lib.Wire Model.Tokens Model.ProxySession.
 Import ListNotations.
@@ -24,6 +30,13 @@ Local Open Scope nat_scope.
 Definition pre : list label := [LGet; LGetSend].
 Definition nego : list label := pre ++ [LPollOffer; LRelayOk; LPcOk].
 Definition opened (sid : nat) : list label := nego ++ [LAnswerOk; LDcOpen; LH sid HClaim; LSelectOpen].
+
+(* the handlers of the sessions ids end, one after the other *)
+Definition ends (ids : list nat) : list label := List.concat (map (fun i => [LH i HEnd; LH i HRecv]) ids).
+
+(* one round of a w op: "_" or '.'-separated session ids *)
+Definition round_parse (r : bytes) : option (list nat) :=
+  if beq r (bs "_") then Some [] else map_opt dec_parse_nat (split_on DOT r).
 
 (* labels of an op, and whether its polls are shown *)
 Definition op_labels (v : version) (sid : nat) (t : bytes) : option (list label * bool) :=
@@ -35,7 +48,7 @@ Definition op_labels (v : version) (sid : nat) (t : bytes) : option (list label 
       else if (c =? 112)%N then Some (pre ++ [LPollOffer; LRelayOk; LPcFail; LMainRecv], true)
       else if existsb (N.eqb c) [97; 103; 109]%N
            then Some (nego ++ [LAnswerFail; LGiveUp; LClose; LMainRecv], true)
-      else if (c =? 116)%N then Some (nego ++ [LAnswerOk; LSelectTimeout; LGiveUp; LClose; LMainRecv], true)
+      else if existsb (N.eqb c) [116; 84]%N then Some (nego ++ [LAnswerOk; LSelectTimeout; LGiveUp; LClose; LMainRecv], true)
       else if (c =? 111)%N then Some (opened sid, true)
       else if (c =? 43)%N then Some (opened sid, false)
       else if (c =? 113)%N then Some (opened sid ++ [LH sid HEnd; LH sid HRecv], true)
@@ -45,7 +58,13 @@ Definition op_labels (v : version) (sid : nat) (t : bytes) : option (list label 
       else None
   | c :: d =>
       if existsb (N.eqb c) [99; 100; 45]%N
-      then match dec_parse_nat d with Some i => Some ([LH i HEnd; LH i HRecv], true) | None => None end
+      then match dec_parse_nat d with Some i => Some (ends [i], true) | None => None end
+      else if (c =? 119)%N
+      then match map_opt round_parse (split_on 47%N d) with
+           | Some rounds =>
+               Some (pre ++ List.concat (map (fun ids => LPollNoMatch :: ends ids) rounds) ++ [LPollNil; LMainRecv], true)
+           | None => None
+           end
       else None
   | [] => None
   end.
@@ -65,7 +84,7 @@ Definition op_print (st : state) (npolls : nat) (show : bool) : bytes :=
   let ps := skipn npolls (polls st) in
   bs "c" ++ zdec_print (count (tok st)) ++ bs "h" ++ dec_print (N.of_nat (chlen (tok st))) ++ bs "p" ++
   match ps, show with
-  | _ :: _, true => join [46%N] (map (fun p => zdec_print (fst p)) ps)
+  | _ :: _, true => join [46%N] (map (fun p => zdec_print (fst p) ++ bs "@" ++ dec_print (N.of_nat (snd p))) ps)
   | _, _ => bs "-"
   end.
 
